@@ -76,7 +76,7 @@ func (ex *Exec) evalCall(e *ast.CallExpr, st *State) Value {
 				return ex.ts.Eq(a.Val, b.Val)
 			case "forallAll":
 				fv := ex.eval(e.Args[0], st).(*FuncV)
-				sig := ex.cur().pkg.TypesInfo.Types[fv.Lit].Type.(*types.Signature)
+				sig := ex.typeOf(fv.Lit).(*types.Signature)
 				pt := sig.Params().At(0).Type()
 				bs, ok := scalarSort(pt)
 				if !ok {
@@ -405,7 +405,7 @@ func (ex *Exec) inline(fi *FuncInfo, lit *ast.FuncLit, pkg *packages.Package, en
 	if recvField != nil && len(recvField.List) == 1 && len(recvField.List[0].Names) == 1 {
 		n := recvField.List[0].Names[0]
 		if n.Name != "_" {
-			ex.declare(st, fr.pkg.TypesInfo.Defs[n], recv)
+			ex.declare(st, ex.defObj(fr.pkg, n), recv)
 		}
 	}
 	i := 0
@@ -416,7 +416,7 @@ func (ex *Exec) inline(fi *FuncInfo, lit *ast.FuncLit, pkg *packages.Package, en
 		}
 		for _, n := range fld.Names {
 			if n.Name != "_" {
-				ex.declare(st, fr.pkg.TypesInfo.Defs[n], args[i])
+				ex.declare(st, ex.defObj(fr.pkg, n), args[i])
 			}
 			i++
 		}
@@ -429,7 +429,7 @@ func (ex *Exec) inline(fi *FuncInfo, lit *ast.FuncLit, pkg *packages.Package, en
 				continue
 			}
 			for _, n := range fld.Names {
-				obj := fr.pkg.TypesInfo.Defs[n]
+				obj := ex.defObj(fr.pkg, n)
 				l := ex.declare(st, obj, ex.zeroValue(obj.Type()))
 				fr.results = append(fr.results, l)
 				nres++
@@ -498,7 +498,7 @@ func (ex *Exec) zeroValueSig(fi *FuncInfo, lit *ast.FuncLit, k int) Value {
 	if fi != nil {
 		sig = fi.Obj.Type().(*types.Signature)
 	} else {
-		sig = ex.cur().pkg.TypesInfo.Types[lit].Type.(*types.Signature)
+		sig = ex.typeOf(lit).(*types.Signature)
 	}
 	return ex.zeroValue(sig.Results().At(k).Type())
 }
@@ -620,4 +620,13 @@ func (ex *Exec) evalUnfold(e *ast.CallExpr, st *State) Value {
 	ex.assume(st, ex.ts.Eq(atom, bt))
 	ex.assumptions["definitional unfolding of recursive spec function "+nm+" (its recursion is structural on an unsigned counter)"] = true
 	return atom
+}
+
+func (ex *Exec) defObj(pk *packages.Package, id *ast.Ident) types.Object {
+	if o, ok := pk.TypesInfo.Defs[id]; ok && o != nil {
+		return o
+	}
+	ex.prog.extraMu.RLock()
+	defer ex.prog.extraMu.RUnlock()
+	return ex.prog.Extra.Defs[id]
 }
